@@ -108,7 +108,7 @@ class ParserTotal(BoundedCheck):
             yield ''.join(toks)
         if self.shard == 0:
             for s in ('Y = {}', 'Y = {a} + }{', 'Y = {0}', 'Y = 1/0', 'Y = "a" + 1', 'Y = print(1)', '```\nx=1', 'é = 1', 'Y = H[--1]', 'Y = X\nY = X', '`self.Q = 1`\n`self.Q = 1`',
-                      'Y = log(0) * X', 'Y = sqrt(X) + foo(2)', 'Y = np.log(0) + X', 'Y = X + X(1)', 'H = H(1)', 'Y = X(1) + X', 'b=A(1)+A', 'Y = f(X)\nZ = f', 'Y = exp + exp(X)', '```\nscale_ = 0.5\n```', '`q_ = 3`', 'Y = X\n`import_marker_ = [1]`', '```\nglobal g_\ng_ = 1\n```'):
+                      '```\nx\n``` ', '```\nself.x\n```\t', '``` \nself.x = 1\n```', '```\nself.x = 1\n```  \nY = 1', 'Y = log(0) * X', 'Y = sqrt(X) + foo(2)', 'Y = np.log(0) + X', 'Y = X + X(1)', 'H = H(1)', 'Y = X(1) + X', 'b=A(1)+A', 'Y = f(X)\nZ = f', 'Y = exp + exp(X)', '```\nscale_ = 0.5\n```', '`q_ = 3`', 'Y = X\n`import_marker_ = [1]`', '```\nglobal g_\ng_ = 1\n```'):
                 yield s
 
     def check(self, s: str, res: BoundedResult):
